@@ -48,6 +48,23 @@ Streams: regress, probes, corpus, synthetic, `_explicit_h` unit level, and (anch
   hand   seven small explicit-H templates with a bare proton / hydride / H2 (hydrogens SynRule must keep explicit:
          `_removable_on` "no neighbours", `h_to_implicit` leaving a lone hydrogen in the pattern), centre and full ITS,
          forward and backward.
+  prebond  the template FORMS a bond (0 -> k, k = 1, 2) between two atoms the substrate ALREADY joins by a bond of order j
+         (none / single / double / triple / aromatic): the additive branch of `_glue_graph`, product-side orders j + k up to 5,
+         results the rendering has to drop or to write faithfully.  Four populations: `prebond-hand` (seven hand-written
+         templates -- C(sp)-H + C-Br coupling explicit and implicit, amine alkylation, imine formation 0 -> 2, ether formation,
+         C-H + H-C -> C-C + H-H -- each on substrates with the joined atoms at every existing order, all strategies, the
+         hydrogen modes that are legal for the template, explicit_h=False, backward through the mirror image; plus call
+         sequences: a control substrate first through the same template object, diagnostic members in between);
+         `prebond-corpus` (a corpus reaction's own side with a bond of order 1 / 2 / 3 put between the two heavy atoms of a
+         bond the reaction forms, centre and full template); `prebond-centre` (the corpus reaction centre itself as a small
+         molecule with those two atoms joined); `prebond-valent` (generated valence-correct graph substrates with a planted
+         balanced template, implicit mode, numbers partly re-typed int / float / numpy).
+Every returned reaction STRING (all streams, graph substrates included) is read back by RDKit alone (`read_rsmi`: one node per
+map number, bond types as RDKit reads them, hydrogen counts, charges) and given to the same Lean `reactor.spec` as the graph:
+clause (c) has to hold for the string where it holds for the graph.  A string that differs from its graph only by what RDKit
+itself does to that graph when the harness renders it with its own bond table (aromaticity re-perception, charge-separated
+forms; `indep_render`) is counted, not gated.  The known class additive_round_clash is recognised on the explicit re-match path
+too (hypothesis RoundExact evaluated on the expanded host for the re-match behind the output).
 """
 import json
 
@@ -95,11 +112,11 @@ MAX_ITS = 40        # outputs per case evaluated by the specification
 MAX_STORED = 40     # violations kept per kind (the rest is counted)
 
 CASE_KEYS = ("rsmi", "core", "tpl_graph", "sub", "host_graph", "invert", "strategy", "mode", "outside",
-             "tform", "sform", "skey", "ctor", "kw", "canon_arg")
+             "tform", "sform", "skey", "ctor", "kw", "canon_arg", "warm", "poke", "numkey")
 
 # Entry-point / option variation (stream `entry`, adapter `reactor_case_x`).  A case without any of these keys
 # goes through the shared adapter `reactor_common.reactor_case` unchanged.
-FORM_KEYS = ("tform", "sform", "skey", "ctor", "kw", "canon_arg")
+FORM_KEYS = ("tform", "sform", "skey", "ctor", "kw", "canon_arg", "warm", "poke", "numkey")
 TFORMS = ("graph", "str", "synrule", "synrule_nocanon", "from_smart", "from_gml")
 SFORMS = ("smiles", "graph", "graph_shuffled", "syngraph", "syngraph_nocanon")
 
@@ -172,6 +189,108 @@ def canon_explicit(g, n0):
         except Exception:
             attrs.add("bad-order")
     return [base, sorted(out_c.items()), sorted(in_c.items()), sorted(attrs), len(newn)]
+
+
+# ------------------------------------------------------------------ returned reaction strings, read back
+def read_rsmi(sm):
+    """Independent (RDKit only) reading of a returned mapped reaction string as an ITS-like graph: one node per atom-map
+    number (hydrogens written as atoms stay atoms: removeHs=False) with typesGH = ((element, aromatic, total H count,
+    charge, []) on the left, the same on the right), one edge per bond of either side with order = (left, right) as RDKit
+    reads the bond type (0 where the side has no bond).  None when the string cannot be read that way (an unmapped or
+    doubly used map number, different atom sets on the two sides, an RDKit parse failure): counted, never gated."""
+    from rdkit import Chem
+    import networkx as nx
+
+    try:
+        l, r = sm.split(">>")
+    except ValueError:
+        return None
+    ps = Chem.SmilesParserParams()
+    ps.removeHs = False
+    sides = []
+    for part in (l, r):
+        m = Chem.MolFromSmiles(part, ps)
+        if m is None:
+            return None
+        atoms, bonds = {}, {}
+        for a in m.GetAtoms():
+            k = a.GetAtomMapNum()
+            if k == 0 or k in atoms:
+                return None
+            atoms[k] = (a.GetSymbol(), bool(a.GetIsAromatic()), int(a.GetTotalNumHs()), int(a.GetFormalCharge()), ())
+        for b in m.GetBonds():
+            u, v = b.GetBeginAtom().GetAtomMapNum(), b.GetEndAtom().GetAtomMapNum()
+            o = b.GetBondTypeAsDouble()
+            if o * 2 != int(o * 2):
+                return None
+            bonds[(min(u, v), max(u, v))] = o
+        sides.append((atoms, bonds))
+    if set(sides[0][0]) != set(sides[1][0]):
+        return None
+    G = nx.Graph()
+    for k in sorted(sides[0][0]):
+        tl, tr = sides[0][0][k], sides[1][0][k]
+        G.add_node(k, element=tl[0], aromatic=tl[1], hcount=tl[2], charge=tl[3], atom_map=k, typesGH=(tl, tr))
+    for e in sorted(set(sides[0][1]) | set(sides[1][1])):
+        o = (sides[0][1].get(e, 0.0), sides[1][1].get(e, 0.0))
+        G.add_edge(e[0], e[1], order=o, standard_order=o[0] - o[1])
+    return rc.enc_graph(G)
+
+
+_BOND_TABLE = {2: "SINGLE", 3: "AROMATIC", 4: "DOUBLE", 6: "TRIPLE"}     # half-units -> RDKit bond type; nothing else is a bond order RDKit can write
+
+
+def indep_render(its):
+    """What RDKit (trusted) writes for the two sides of an encoded ITS graph when the harness builds the molecules itself:
+    atoms in node order with element / charge / hydrogen count of `typesGH` and the node id as map number, bonds of positive
+    order through the harness's own table (1, 1.5, 2, 3; any other order cannot be written: None), sanitised, MolToSmiles.
+    Used only to tell RDKit's own normalisation (aromaticity re-perception, charge-separated forms) from a string that is
+    not the graph it is said to render."""
+    from rdkit import Chem
+
+    out = []
+    for s in (0, 1):
+        try:
+            mol = Chem.RWMol()
+            idx = {}
+            for n, a in its["nodes"]:
+                if "typesGH" not in a:
+                    continue
+                t = a["typesGH"]["t"][s]["t"]
+                el = t[0]["s"]
+                if el == "*":
+                    continue
+                at = Chem.Atom(el)
+                at.SetFormalCharge(t[3]["n"] // 2)
+                at.SetAtomMapNum(n)
+                at.SetNoImplicit(True)
+                at.SetNumExplicitHs(t[2]["n"] // 2)
+                idx[n] = mol.AddAtom(at)
+            for u, v, a in its["edges"]:
+                o = a["order"]["t"][s]["n"]
+                if o <= 0 or u not in idx or v not in idx:
+                    continue
+                if o not in _BOND_TABLE:
+                    return None
+                mol.AddBond(idx[u], idx[v], getattr(Chem.BondType, _BOND_TABLE[o]))
+            Chem.SanitizeMol(mol)
+            out.append(Chem.MolToSmiles(mol))
+        except Exception:
+            return None
+    return ">>".join(out)
+
+
+def _orders_outside_table(its):
+    """product-side / reactant-side bond orders (half-units) of an encoded ITS graph that RDKit cannot write"""
+    bad = set()
+    for _, _, a in its["edges"]:
+        try:
+            for x in a["order"]["t"]:
+                if x["n"] > 0 and x["n"] not in _BOND_TABLE:
+                    bad.add(x["n"])
+        except Exception:
+            pass
+    return sorted(bad)
 
 
 # ------------------------------------------------------------------ generators
@@ -284,6 +403,387 @@ def hand_cases(ctx, all_strategies):
                     cases.append({"rsmi": rsmi, "core": core, "sub": p if inv else r, "invert": inv, "strategy": st,
                                   "mode": "explicit", "tag": f"hand#{i}", "kind": "hand"})
     return cases
+
+
+# ------------------------------------------------------------------ stream `prebond`: the template joins what is already joined
+# Hand-written templates that FORM a bond (order 0 -> k) between two atoms, each with substrates in which those two atoms are
+# not bonded (control) / already bonded by a single / double / triple / aromatic bond, so that the product-side order of the
+# result is j + k = 1 ... 5 (or non-integral).  Whatever the code does with such a match -- return it or drop it -- every
+# reaction it DOES return has to meet (a), (b), (c), as a graph and as a string.
+# (template reaction, hydrogen modes it is run in [DESIGN 5a mode first], substrates)
+PREBOND_HAND = [
+    # C(sp)-H + C-Br -> C-C + H-Br, hydrogen explicit
+    ("[CH3:1][C:2]#[C:3][H:4].[Br:5][CH2:6][CH3:7]>>[CH3:1][C:2]#[C:3][CH2:6][CH3:7].[H:4][Br:5]", ("explicit",),
+     ["C#C.CBr", "CCBr", "C=CBr", "C#CBr", "C#CBr.C#CBr", "BrC1=CCCC1", "Brc1ccccc1", "CC#CBr.C#CC"]),
+    # the same with the hydrogen as a count (implicit mode: host count >= pattern count, so the pattern atoms carry few H)
+    ("[Cl:1][C:2]#[CH:3].[Br:5][C:6]([Cl:7])([Cl:8])[Cl:9]>>[Cl:1][C:2]#[C:3][C:6]([Cl:7])([Cl:8])[Cl:9].[BrH:5]", ("implicit",),
+     ["C#C.BrC(Cl)(Cl)Cl", "CCBr", "C=CBr", "C#CBr", "C#CBr.C#CBr", "BrC1=CCCC1"]),
+    # amine + alkyl bromide -> ammonium bromide (no hydrogen changes: both modes are legal)
+    ("[CH3:1][N:2]([CH3:3])[CH3:4].[CH3:5][Br:6]>>[CH3:1][N+:2]([CH3:3])([CH3:4])[CH3:5].[Br-:6]", ("explicit",),
+     ["CN(C)C.CBr", "CN(C)CBr", "CN=C(C)Br", "N#CBr", "N#CBr.CN(C)C", "Brc1ccccn1"]),
+    ("[CH3:1][N:2]([CH3:3])[CH3:4].[Cl:7][C:5]([Cl:8])([Cl:9])[Br:6]>>[CH3:1][N+:2]([CH3:3])([CH3:4])[C:5]([Cl:7])([Cl:8])[Cl:9].[Br-:6]",
+     ("implicit", "explicit"), ["CN(C)C.ClC(Cl)(Cl)Br", "CN(C)CBr", "CN=C(C)Br", "N#CBr", "N#CBr.CN(C)C", "Brc1ccccn1"]),
+    # ketone + primary amine -> imine + water: forms a DOUBLE bond (0 -> 2); on an amide that is 1 + 2 = 3 (a nitrile)
+    ("[CH3:1][C:2]([CH3:6])=[O:3].[CH3:4][NH2:5]>>[CH3:1][C:2]([CH3:6])=[N:5][CH3:4].[OH2:3]", ("implicit",),
+     ["CC(C)=O.CN", "CC(N)=O", "NC=O", "NC(N)=O", "NC(=O)c1ccccc1", "NC(=O)C#N"]),
+    # alcohol + alkyl chloride -> ether + HCl, hydrogen explicit; on chloromethanol 1 + 1 = 2 (formaldehyde)
+    ("[CH3:1][O:2][H:3].[CH3:4][Cl:5]>>[CH3:1][O:2][CH3:4].[H:3][Cl:5]", ("explicit",),
+     ["CO.CCl", "OCCl", "OC(=O)Cl", "OC(Cl)=C", "Oc1ccccc1Cl"]),
+    # C-H + H-C -> C-C + H-H, both hydrogens explicit
+    ("[CH3:1][H:2].[CH3:3][H:4]>>[CH3:1][CH3:3].[H:2][H:4]", ("explicit",),
+     ["C.C", "CC", "C=C", "C#C", "C#CC", "c1ccccc1"]),
+]
+
+
+def prebond_hand_cases(ctx, thorough):
+    """Every template x substrate x mode of PREBOND_HAND, centre template with all three strategies (one-molecule substrates
+    reach `all` through the fall-back of comp / bt), full ITS with one (thorough: all); explicit-mode templates also with
+    explicit_h=False; forward.  Backward (thorough, and one per template in quick): the mirror image of the template is
+    handed over with invert=True, so that the reactor's own inversion restores it and the same matches exist."""
+    rnd = ctx.rnd
+    cases = []
+    for ti, (rsmi, modes, subs) in enumerate(PREBOND_HAND):
+        mirror = ">>".join(rsmi.split(">>")[::-1])
+        back = rnd.randrange(len(subs))
+        for si, sub in enumerate(subs):
+            for mode in modes:
+                kws = [{}] + ([{"explicit_h": False}] if mode == "explicit" else [])
+                for kw in kws:
+                    for core in (True, False):
+                        sts = ["all", "comp", "bt"] if (core or thorough) else [rnd.choice(["all", "comp", "bt"])]
+                        for st in sts:
+                            dirs = [False] + ([True] if (thorough or (si == back and core)) else [])
+                            for inv in dirs:
+                                c = {"rsmi": mirror if inv else rsmi, "core": core, "sub": sub, "invert": inv, "strategy": st,
+                                     "mode": mode, "tag": f"prebond-hand#{ti}", "kind": "prebond-hand"}
+                                if kw:
+                                    c["kw"] = dict(kw)
+                                cases.append(c)
+        # hidden state between calls: the control substrate (ordinary match) goes first through a reactor built from the very
+        # same template object, then a substrate with the joined atoms already bonded; diagnostic members in between
+        for mode in modes:
+            for tform in ("graph", "synrule"):
+                c = {"rsmi": rsmi, "core": True, "sub": rnd.choice(subs[1:]), "invert": False, "strategy": rnd.choice(["all", "comp", "bt"]),
+                     "mode": mode, "tag": f"prebond-hand#{ti}", "kind": "prebond-hand", "tform": tform, "warm": subs[0]}
+                if rnd.random() < 0.5:
+                    c["poke"] = True
+                ctx.count(f"prebond-hand:warm-up first, template as {tform}")
+                cases.append(c)
+    return cases
+
+
+def _mapped_sides(rsmi):
+    """RDKit-only reading of a mapped corpus reaction: per side {map: (symbol, total H without mapped H atoms, charge,
+    aromatic)} and {(map, map): order}; None if unreadable."""
+    from rdkit import Chem, rdBase
+
+    _block = rdBase.BlockLogs()     # noqa: F841  (RDKit's valence messages are not results)
+
+    ps = Chem.SmilesParserParams()
+    ps.removeHs = False
+    out = []
+    try:
+        for part in rsmi.split(">>"):
+            m = Chem.MolFromSmiles(part, ps)
+            if m is None:
+                return None
+            atoms = {a.GetAtomMapNum(): (a.GetSymbol(), a.GetTotalNumHs(), a.GetFormalCharge(), a.GetIsAromatic()) for a in m.GetAtoms() if a.GetAtomMapNum()}
+            bonds = {}
+            for b in m.GetBonds():
+                u, v = b.GetBeginAtom().GetAtomMapNum(), b.GetEndAtom().GetAtomMapNum()
+                if u and v:
+                    bonds[(min(u, v), max(u, v))] = b.GetBondTypeAsDouble()
+            out.append((atoms, bonds))
+    except Exception:
+        return None
+    return out if len(out) == 2 else None
+
+
+def _join_in_smiles(side_smiles, a, b, j):
+    """The mapped molecule set `side_smiles` with a bond of order j put between the atoms mapped a and b, each giving up j of
+    its (non-atom) hydrogens -> unmapped SMILES, or None when an atom has fewer than j such hydrogens or RDKit rejects the
+    result.  RDKit only."""
+    from rdkit import Chem, rdBase
+
+    _block = rdBase.BlockLogs()     # noqa: F841  (RDKit's valence messages are not results)
+
+    ps = Chem.SmilesParserParams()
+    ps.removeHs = False
+    try:
+        m = Chem.MolFromSmiles(side_smiles, ps)
+        if m is None:
+            return None
+        rw = Chem.RWMol(m)
+        ia = [x.GetIdx() for x in rw.GetAtoms() if x.GetAtomMapNum() == a]
+        ib = [x.GetIdx() for x in rw.GetAtoms() if x.GetAtomMapNum() == b]
+        if len(ia) != 1 or len(ib) != 1 or rw.GetBondBetweenAtoms(ia[0], ib[0]) is not None:
+            return None
+        for i in (ia[0], ib[0]):
+            at = rw.GetAtomWithIdx(i)
+            h = at.GetTotalNumHs()
+            if h < j or at.GetIsAromatic():
+                return None
+            at.SetNoImplicit(True)
+            at.SetNumExplicitHs(h - j)
+        rw.AddBond(ia[0], ib[0], {1: Chem.BondType.SINGLE, 2: Chem.BondType.DOUBLE, 3: Chem.BondType.TRIPLE}[j])
+        Chem.SanitizeMol(rw)
+        for x in rw.GetAtoms():
+            x.SetAtomMapNum(0)
+        Chem.RemoveStereochemistry(rw)          # as the corpus substrates (Standardize): the reactor's graphs carry no stereo
+        out = Chem.RemoveHs(rw.GetMol())
+        smi = Chem.MolToSmiles(out)
+        return smi if Chem.MolFromSmiles(smi) is not None else None
+    except Exception:
+        return None
+
+
+def prebond_corpus_cases(ctx, reactions, per_reaction):
+    """Generated analogues on corpus templates: for a corpus reaction that forms (forward) / breaks (backward: the reactor
+    forms it) a bond between two heavy atoms a, b, the substrate is the reaction's own side with a bond of order j in {1, 2, 3}
+    put between a and b (each gives up j hydrogens; built with RDKit alone).  Centre and full template, strategy uniform."""
+    rnd = ctx.rnd
+    cases = []
+    for r in reactions:
+        sides = _mapped_sides(r["rsmi"])
+        if sides is None:
+            ctx.count("prebond-corpus:reaction_not_readable")
+            continue
+        made = 0
+        options = []
+        for inv in (False, True):
+            own, other = (sides[1], sides[0]) if inv else (sides[0], sides[1])
+            for e, o in sorted(other[1].items()):
+                if e in own[1] or e[0] not in own[0] or e[1] not in own[0]:
+                    continue
+                if own[0][e[0]][0] == "H" or own[0][e[1]][0] == "H":
+                    continue
+                for j in (1, 2, 3):
+                    if own[0][e[0]][1] >= j and own[0][e[1]][1] >= j:
+                        options.append((inv, e, j))
+        rnd.shuffle(options)
+        for j in [3] + rnd.sample([1, 2], 2):        # the rare triple bond first, then single / double in random order
+            if made >= per_reaction:
+                break
+            for inv, e, jj in options:
+                if jj != j:
+                    continue
+                sub = _join_in_smiles(r["rsmi"].split(">>")[1 if inv else 0], e[0], e[1], j)
+                if sub is None:
+                    ctx.count("prebond-corpus:join_rejected_by_rdkit")
+                    continue
+                made += 1
+                ctx.count(f"prebond-corpus:existing_order={j}")
+                for core in (True, False):
+                    cases.append({"rsmi": r["rsmi"], "core": core, "sub": sub, "invert": inv, "strategy": rnd.choice(["all", "comp", "bt"]),
+                                  "mode": r["mode"], "tag": f"{r['src']}#{r['idx']}+bond{e[0]}-{e[1]}x{j}", "kind": "prebond-corpus"})
+                break
+        if not made:
+            ctx.count("prebond-corpus:reaction_without_joinable_formed_bond")
+    return cases
+
+
+def _centre_molecule(own, centre, a, b, j):
+    """The reaction centre as a molecule of its own, with a and b joined: the atoms `centre` of one side of a mapped reaction
+    (element, charge), the bonds that side has among them, a bond of order j between a and b, every remaining valence filled
+    with hydrogen by RDKit -> unmapped SMILES, or None (aromatic centre atom, an order RDKit cannot take, valence exceeded)."""
+    from rdkit import Chem, rdBase
+
+    _block = rdBase.BlockLogs()     # noqa: F841  (RDKit's valence messages are not results)
+
+    try:
+        rw = Chem.RWMol()
+        idx = {}
+        for k in sorted(centre):
+            sym, _, q, arom = own[0][k]
+            if arom:
+                return None
+            at = Chem.Atom(sym)
+            at.SetFormalCharge(q)
+            idx[k] = rw.AddAtom(at)
+        table = {1.0: Chem.BondType.SINGLE, 2.0: Chem.BondType.DOUBLE, 3.0: Chem.BondType.TRIPLE}
+        for (u, v), o in sorted(own[1].items()):
+            if u in idx and v in idx:
+                if o not in table or {u, v} == {a, b}:
+                    return None
+                rw.AddBond(idx[u], idx[v], table[o])
+        rw.AddBond(idx[a], idx[b], table[float(j)])
+        Chem.SanitizeMol(rw)
+        smi = Chem.MolToSmiles(Chem.RemoveHs(rw.GetMol()))
+        return smi if smi and Chem.MolFromSmiles(smi) is not None else None
+    except Exception:
+        return None
+
+
+def prebond_centre_cases(ctx, reactions, per_reaction):
+    """Generated analogues on corpus CENTRE templates: the substrate is the reaction centre itself as a small molecule (atoms
+    of the changed bonds on the side the template is applied to, their bonds there, valences filled with hydrogen) in which
+    the two heavy atoms of a bond the template FORMS are already joined by a bond of order j in {1, 2, 3} (RDKit alone builds
+    it).  Forward on the reactant-side centre, backward on the product-side centre; strategy uniform."""
+    rnd = ctx.rnd
+    cases = []
+    for r in reactions:
+        sides = _mapped_sides(r["rsmi"])
+        if sides is None:
+            ctx.count("prebond-centre:reaction_not_readable")
+            continue
+        common = set(sides[0][0]) & set(sides[1][0])
+        changed = [e for e in set(sides[0][1]) | set(sides[1][1])
+                   if sides[0][1].get(e, 0.0) != sides[1][1].get(e, 0.0) and e[0] in common and e[1] in common]
+        centre = {x for e in changed for x in e}
+        options = []
+        for inv in (False, True):
+            own, other = (sides[1], sides[0]) if inv else (sides[0], sides[1])
+            for e in sorted(changed):
+                if e in own[1] or e not in other[1] or own[0][e[0]][0] == "H" or own[0][e[1]][0] == "H":
+                    continue
+                for j in (1, 2, 3):
+                    options.append((inv, e, j))
+        rnd.shuffle(options)
+        made = 0
+        for j in [3] + rnd.sample([1, 2], 2):
+            if made >= per_reaction:
+                break
+            for inv, e, jj in options:
+                if jj != j:
+                    continue
+                sub = _centre_molecule(sides[1] if inv else sides[0], centre, e[0], e[1], j)
+                if sub is None:
+                    ctx.count("prebond-centre:not_a_molecule")
+                    continue
+                made += 1
+                ctx.count(f"prebond-centre:existing_order={j}")
+                c = {"rsmi": r["rsmi"], "core": True, "sub": sub, "invert": inv, "strategy": rnd.choice(["all", "comp", "bt"]),
+                     "mode": r["mode"], "tag": f"{r['src']}#{r['idx']}:centre+bond{e[0]}-{e[1]}x{j}", "kind": "prebond-centre"}
+                if rnd.random() < 0.3:       # the reaction's own side first, through the same template object
+                    c["warm"] = r["products"] if inv else r["reactants"]
+                    c["tform"] = rnd.choice(["graph", "synrule"])
+                    ctx.count("prebond-centre:warm-up first, template as " + c["tform"])
+                if rnd.random() < 0.2:
+                    c["poke"] = True
+                    ctx.count("prebond-centre:diagnostic members called before its_list")
+                cases.append(c)
+                break
+        if not made:
+            ctx.count("prebond-centre:reaction_without_usable_formed_bond")
+    return cases
+
+
+VALENCE = {"C": 4, "N": 3, "O": 2, "S": 2, "Cl": 1, "Br": 1}
+
+
+def valent_case(rnd):
+    """A small valence-correct molecule graph (C/N/O/S skeleton, bond orders 1/2/3, hydrogen counts filling the valences,
+    halogen leaving groups) and a planted template that FORMS a bond of order k in {1, 2} between two atoms a, b which the
+    substrate joins by a bond of order j in {0, 1, 2, 3} (the pattern does not contain that bond: the additive branch of
+    `_glue_graph`): b loses k halogens, a loses k hydrogens (taken up by the halogens) or k halogens of its own (which pair
+    up with b's).  The template is balanced and keeps every valence, so the result can be rendered exactly when j + k <= 3.
+    Implicit-hydrogen mode; forward, or mirrored template with invert=True."""
+    import networkx as nx
+
+    for _ in range(200):
+        n = rnd.randint(2, 6)
+        ids = rnd.sample(range(1, 40), n + 4)
+        halo_ids, ids = ids[n:], ids[:n]
+        el = {i: rnd.choice(["C", "C", "C", "C", "N", "O", "S"]) for i in ids}
+        k = rnd.choice([1, 1, 1, 2])
+        want_j = rnd.choice([0, 1, 2, 3, 3])
+        a, b = ids[0], ids[1]
+        el[a] = rnd.choice(["C", "C", "N"]) if want_j + k <= 3 else "C"
+        el[b] = "C"
+        free = {i: VALENCE[el[i]] for i in ids}
+        G = nx.Graph()
+        for i in ids:
+            G.add_node(i)
+        if want_j:
+            if min(free[a], free[b]) < want_j + k:
+                continue
+            G.add_edge(a, b, order=float(want_j))
+            free[a] -= want_j
+            free[b] -= want_j
+        shape = rnd.choice(["H", "H", "X"])
+        need_a, need_b = k, k
+        if free[a] < need_a or free[b] < need_b:
+            continue
+        # leaving groups first, then the rest of the skeleton on what is left
+        free[b] -= k
+        ys = [halo_ids.pop() for _ in range(k)]
+        xs = []
+        if shape == "X":
+            free[a] -= k
+            xs = [halo_ids.pop() for _ in range(k)]
+        for h, owner in [(y, b) for y in ys] + [(x, a) for x in xs]:
+            el[h] = rnd.choice(["Cl", "Br"])
+            G.add_node(h)
+            G.add_edge(owner, h, order=1.0)
+            free[h] = 0
+        keep_h = k if shape == "H" else 0            # hydrogens a must keep for the template
+        ok = True
+        for idx in range(2, n):
+            i = ids[idx]
+            cand = [p for p in ids[:idx] if free[p] - (keep_h if p == a else 0) >= 1]
+            if not cand:
+                ok = False
+                break
+            p_ = rnd.choice(cand)
+            omax = min(free[i], free[p_] - (keep_h if p_ == a else 0), 3)
+            o = rnd.choice([x for x in (1, 1, 1, 2, 3) if x <= omax])
+            G.add_edge(i, p_, order=float(o))
+            free[i] -= o
+            free[p_] -= o
+        if not ok:
+            continue
+        for i in G.nodes:
+            G.nodes[i].update(element=el[i], aromatic=False, hcount=free[i], charge=0, atom_map=0)
+        for i in G.nodes:
+            G.nodes[i]["neighbors"] = sorted(G.nodes[x]["element"] for x in G.neighbors(i))
+        # insertion order of the host is shuffled (ids carry no meaning)
+        H = nx.Graph()
+        order = list(G.nodes)
+        rnd.shuffle(order)
+        for i in order:
+            H.add_node(i, **G.nodes[i])
+        es = list(G.edges(data=True))
+        rnd.shuffle(es)
+        for u, v, d in es:
+            H.add_edge(*((u, v) if rnd.random() < 0.5 else (v, u)), **d)
+        # template on a, b, the leaving groups
+        tid = {h: 100 + x for x, h in enumerate([a, b] + ys + xs)}
+        dh = {h: 0 for h in tid}
+        if shape == "H":
+            dh[a] = -k
+            for y in ys:
+                dh[y] = 1
+        T = nx.Graph()
+        for h, t in tid.items():
+            d = H.nodes[h]
+            hl = d["hcount"] if rnd.random() < 0.6 else max(-dh[h], rnd.randint(0, d["hcount"]))
+            T.add_node(t, element=d["element"], aromatic=False, hcount=hl, charge=0, atom_map=t,
+                       typesGH=((d["element"], False, hl, 0, []), (d["element"], False, hl + dh[h], 0, [])))
+        T.add_edge(tid[a], tid[b], order=(0.0, float(k)), standard_order=-float(k))
+        for y in ys:
+            T.add_edge(tid[b], tid[y], order=(1.0, 0.0), standard_order=1.0)
+        for x, y in zip(xs, ys):
+            T.add_edge(tid[a], tid[x], order=(1.0, 0.0), standard_order=1.0)
+            T.add_edge(tid[x], tid[y], order=(0.0, 1.0), standard_order=-1.0)
+        invert = rnd.random() < 0.3
+        if invert:
+            M = nx.Graph()
+            for v, d in T.nodes(data=True):
+                l, r = d["typesGH"]
+                M.add_node(v, element=d["element"], aromatic=False, hcount=r[2], charge=r[3], atom_map=v, typesGH=(r, l))
+            for u, v, d in T.edges(data=True):
+                o = d["order"]
+                M.add_edge(u, v, order=(o[1], o[0]), standard_order=o[1] - o[0])
+            T = M
+        c = {"tpl_graph": rc.enc_graph(T), "host_graph": rc.enc_graph(H), "invert": invert,
+             "strategy": rnd.choice(["all", "comp", "bt"]), "mode": "implicit", "tag": f"valent:j={want_j},k={k},{shape}",
+             "kind": "prebond-valent"}
+        if rnd.random() < 0.4:      # 1 / 1.0 / numpy.int64(1) / numpy.float64(1.0) mixed within one input
+            c["numkey"] = rnd.randrange(1 << 30)
+        if rnd.random() < 0.15:
+            c["poke"] = True
+        return c
+    raise RuntimeError("valent_case: no molecule in 200 attempts")
 
 
 ELEMS = ["C", "C", "C", "N", "O", "S"]
@@ -490,6 +990,35 @@ def fold_explicit_h(tpl):
     return g, complete
 
 
+def _retype_numbers(g, r):
+    """In place: every bond order (scalar or pair entry), standard_order and hydrogen count of graph `g` (also inside
+    typesGH) re-typed by the derived PRNG `r` among representations that are equal under `==` and encode to one Lean value."""
+    import numpy as np
+
+    def order(x):
+        if isinstance(x, bool) or not isinstance(x, (int, float)):
+            return x
+        kinds = [float, np.float64] + ([int, np.int64] if float(x) == int(x) else [])
+        return r.choice(kinds)(x)
+
+    def count(x):
+        if isinstance(x, bool) or not isinstance(x, int):
+            return x
+        return r.choice([int, np.int64])(x)
+
+    for _, d in g.nodes(data=True):
+        if "hcount" in d:
+            d["hcount"] = count(d["hcount"])
+        if "typesGH" in d:
+            d["typesGH"] = tuple((t[0], t[1], count(t[2])) + tuple(t[3:]) for t in d["typesGH"])
+    for _, _, d in g.edges(data=True):
+        if "order" in d:
+            o = d["order"]
+            d["order"] = tuple(order(x) for x in o) if isinstance(o, (tuple, list)) else order(o)
+        if "standard_order" in d:
+            d["standard_order"] = order(d["standard_order"])
+
+
 def reactor_case_x(case):
     """`reactor_common.reactor_case` with the documented alternative entry points and options of `SynReactor`:
 
@@ -503,6 +1032,12 @@ def reactor_case_x(case):
       ctor   "init" | "from_smiles" (the alternate constructor; substrate as SMILES)
       kw     constructor options overriding the mode's (e.g. explicit_h=False for an explicit-H template, embed_threshold,
              embed_pre_filter, automorphism);  canon_arg: pass an own GraphCanonicaliser
+      warm   a substrate SMILES that is run FIRST through a reactor built from the very same template object (graph / string /
+             SynRule), options and canonicaliser object, its_list and smarts_list queried -- hidden state between calls;
+      poke   call the diagnostic members (mapping_count, str(), substrate_smiles) between `mappings` and `its_list`
+      numkey the numbers of the substrate graph and of the template graph are re-typed per value from Random(numkey): bond
+             orders (scalar / pair entries, standard_order) as int | float | numpy.int64 | numpy.float64, hydrogen counts as
+             int | numpy.int64 -- values equal under `==`, one Lean value; never bool, charges / map numbers untouched
     The record has the fields of `reactor_case`; `tpl` is always the template as an ITS graph built by the harness (what the
     specification compares the outputs with), whatever form the reactor was given."""
     if not any(k in case for k in FORM_KEYS):
@@ -594,16 +1129,30 @@ def reactor_case_x(case):
             sub = SynGraph(sub, canon=False)
         if case["invert"]:
             rec["inverted"] = rc.enc_graph(SynReactor._invert_template(copy.deepcopy(tpl), balance_its=bool(kw.get("implicit_temp"))))
-        if ctor == "from_smiles":
-            re = SynReactor.from_smiles(sub, targ, invert=case["invert"], strategy=case["strategy"],
-                                        **{k: v for k, v in kw.items() if k in ("canonicaliser", "explicit_h", "implicit_temp", "automorphism")})
-        else:
-            re = SynReactor(sub, targ, invert=case["invert"], strategy=case["strategy"], **kw)
+        if "numkey" in case:
+            nr = random.Random(case["numkey"])
+            if isinstance(sub, nx.Graph):
+                _retype_numbers(sub, nr)
+            if isinstance(targ, nx.Graph):
+                _retype_numbers(targ, nr)
+
+        def make(substrate):
+            if ctor == "from_smiles":
+                return SynReactor.from_smiles(substrate, targ, invert=case["invert"], strategy=case["strategy"],
+                                              **{k: v for k, v in kw.items() if k in ("canonicaliser", "explicit_h", "implicit_temp", "automorphism")})
+            return SynReactor(substrate, targ, invert=case["invert"], strategy=case["strategy"], **kw)
+
+        if case.get("warm") is not None:
+            w = make(case["warm"])
+            rec["warm_outputs"] = [len(w.its_list), len(w.smarts_list)]
+        re = make(sub)
         host = re.graph.raw
         rec["host"] = rc.enc_graph(host)
         rule = re.rule
         rec["rule"] = {"rc": rc.enc_graph(rule.rc.raw), "left": rc.enc_graph(rule.left.raw), "right": rc.enc_graph(rule.right.raw)}
         maps = re.mappings
+        if case.get("poke"):
+            rec["poked"] = [int(re.mapping_count), str(re), re.substrate_smiles]
         rec["flag"] = bool(re._flag_pattern_has_explicit_H)
         rec["mappings"] = [graphio.mapping(m) for m in maps]
         rec["map_order"] = [[[int(p), int(h)] for p, h in m.items()] for m in maps]
@@ -695,10 +1244,24 @@ class Eval:
                     if rec.get("explicit_h"):
                         for k, g in enumerate(batch[:MAX_REMAPS]):
                             rq.append((("exh", flat + k), {"cmd": "reactor.explicit_h", "its": g}))
+                if rec["flag"]:
+                    # hypotheses (RoundExact) of the re-match behind every output the specification is evaluated on, beyond
+                    # the MAX_MAPS x MAX_REMAPS compared stage-wise: its_list is the concatenation of the batches
+                    ep = rec["explicit_path"][mi]
+                    for k, m2 in enumerate(ep["maps"][:len(batch)]):
+                        if flat + k < MAX_ITS and not (mi < MAX_MAPS and k < MAX_REMAPS):
+                            rq.append((("hyp2", mi, k), {"cmd": "reactor.hyps", "host": ep["hexp"], "rc": rule["rc"], "m": in_pattern_order(m2)}))
                 flat += len(batch)
         for k, its in enumerate(rec["its"][:MAX_ITS]):
             rq.append((("spec", k), {"cmd": "reactor.spec", "host": rec["host"], "its": its, "tpl": rec.get("tpl_spec") or rec["tpl"],
                                      "invert": case["invert"]}))
+        # the same specification on every returned reaction STRING, read back by RDKit alone (read_rsmi)
+        for k, sm in enumerate(rec.get("smarts_each", [])[:MAX_ITS]):
+            if sm and k < len(rec["its"]):
+                rd = read_rsmi(sm)
+                if rd is not None:
+                    rq.append((("sspec", k), {"cmd": "reactor.spec", "host": rec["host"], "its": rd, "tpl": rec.get("tpl_spec") or rec["tpl"],
+                                              "invert": case["invert"]}))
         return rq
 
     def judge(self, case, rec, ans):
@@ -818,6 +1381,35 @@ class Eval:
         if tpl_unbalanced is not None:
             ctx.count("template_unbalanced:%s" % tpl_unbalanced)
 
+        # --- SMILES level, clause (c): the returned reaction string, read back by RDKit alone, against the template
+        # (every stream, graph substrates included).  Evaluated where the graph of the same output meets (c) -- otherwise the
+        # failure is already reported above; a string that differs from its graph only by what RDKit itself does to the
+        # graph when the harness renders it (aromaticity re-perception, charge-separated forms) is counted, not gated.
+        for k, sm in enumerate(rec.get("smarts_each", [])[:MAX_ITS]):
+            if not sm or k >= len(rec["its"]):
+                continue
+            ss = ans.get(("sspec", k))
+            if ss is None:
+                ctx.count("smiles_c:string_not_readable_by_map_numbers")
+                continue
+            if rec.get("spec_c_skip"):
+                continue
+            ctx.count("smiles_c:evaluated")
+            if ss["c"] or not ans[("spec", k)]["c"]:
+                continue
+            mine = indep_render(rec["its"][k])
+            if mine is not None and mine == sm:
+                ctx.count("smiles_c:differs_from_graph_by_rdkit_normalisation_only")
+                continue
+            spec_bad = True
+            out_of_table = _orders_outside_table(rec["its"][k])
+            ctx.count(f"smiles_c_fails:{case.get('kind')}")
+            self.violate("(c) changed-bond graph of a returned reaction SMILES is not isomorphic to the template's", case,
+                         {"output": k, "tag": case.get("tag"), "smarts": sm, "changed_bonds_in_string": ss["nchg"],
+                          "changed_bonds_in_its_graph": ans[("spec", k)]["nchg"], "template_changed_bonds": ss["tnchg"],
+                          "its_graph_orders_rdkit_cannot_write_halfunits": out_of_table,
+                          "harness_rendering_of_the_same_graph": mine})
+
         # --- SMILES level (RDKit trusted)
         if "sub" in case:
             subc = rc.unmapped(case["sub"])
@@ -852,10 +1444,17 @@ class Eval:
 
     @staticmethod
     def _round_inexact(rec, ans, k):
-        """Implicit path: one output per mapping. Was `round` inexact for the mapping of output k —
-        by position, or (result order is not part of the property) for at least as many mappings as
-        there are outputs failing (c)?"""
+        """Was `round` inexact (hypothesis RoundExact of glue_rc_image false) for the match that produced output k?
+        Implicit path: one output per mapping -- by position, or (result order is not part of the property) for at least as
+        many mappings as there are outputs failing (c).  Explicit path: its_list is the concatenation, in mapping order, of
+        one output per re-match; the hypothesis is evaluated on the expanded host for that re-match."""
         if rec["flag"]:
+            flat = 0
+            for mi, batch in enumerate(rec.get("glued", [])):
+                if flat <= k < flat + len(batch):
+                    h = ans.get(("mono2", mi, k - flat)) or ans.get(("hyp2", mi, k - flat))
+                    return h is not None and not h["round_exact"]
+                flat += len(batch)
             return False
         h = ans.get(("hyps", k))
         if h is not None and not h["round_exact"]:
@@ -949,6 +1548,12 @@ def run(ctx):
         "entry stream, from_gml: the GML text is produced by synkit's its_to_gml (input builder, trusted as rsmi_to_its is); the "
         "specification still compares the outputs with the original template graph",
         "entry stream, graph_shuffled: ids and insertion order come from random.Random(skey) with skey drawn from ctx.rnd",
+        "clause (c) on a returned reaction string is evaluated on its RDKit reading (read_rsmi) where the ITS graph of the same "
+        "output meets (c); a string equal to the harness's own RDKit rendering of that graph (bond table 1 / 1.5 / 2 / 3, "
+        "indep_render) is RDKit's normal form of the graph (trusted) and counted, not gated; strings that cannot be read by map "
+        "numbers are counted",
+        "prebond-corpus / prebond-centre substrates are built with RDKit alone from the mapped corpus reaction (stereo removed, as "
+        "Standardize does for the corpus substrates); numkey re-typing comes from random.Random(numkey), numkey drawn from ctx.rnd",
     ]
     ctx.gen_rule = (
         "regress/C03 first; corpus stream: vendored mapped reactions (ecoli, USPTO sample, hydrogen test set), template = reaction "
@@ -962,7 +1567,22 @@ def run(ctx):
         "/ strategy uniform, substrate forms (smiles, graph, graph_shuffled, syngraph, syngraph_nocanon) round-robin, "
         "from_smiles constructor for half of the SMILES substrates, explicit_h=False on 35% of the explicit-mode cases, "
         "automorphism / embed_pre_filter / embed_threshold in {50, 5000} on 20% each, own canonicaliser on 25%; hand stream: 7 "
-        "fixed proton / hydride / H2 templates x centre/full x forward/backward, strategy uniform (thorough: all three).")
+        "fixed proton / hydride / H2 templates x centre/full x forward/backward, strategy uniform (thorough: all three); "
+        "prebond streams (after all older streams, so that their draws are unchanged): prebond-hand = 7 bond-forming templates x "
+        "5-8 substrates each in which the two joined atoms are unbonded / single / double / triple / aromatic bonded x legal hydrogen "
+        "modes (+ explicit_h=False) x centre (all three strategies) and full ITS (one strategy; thorough all), backward via the "
+        "mirror image for one substrate per template (thorough: all), plus per template and mode two call sequences (control "
+        "substrate first through the same template object given as graph / SynRule, diagnostic members called on half); "
+        "prebond-corpus = seeded sample of corpus reactions (quick 40 of <= 40 atoms, thorough all of <= 60), up to 2 (thorough 3) "
+        "substrates per reaction: own side with a bond of order 3, else 1 / 2 in random order, between the heavy atoms of a "
+        "formed bond (each atom gives up as many hydrogens), centre and full template; prebond-centre = seeded sample of corpus "
+        "reactions (quick 80, thorough all), the centre atoms of the side applied to as a molecule with the same extra bond, "
+        "30% after a warm-up on the reaction's own side through the same template object, 20% with diagnostic members called; "
+        "prebond-valent = 300 (thorough 3000) generated valence-correct molecule graphs (2-6 C/N/O/S atoms, orders 1-3, Cl/Br "
+        "leaving groups) with a planted balanced template forming a bond of order k in {1,1,1,2} on an existing bond of order j "
+        "uniform in {0,1,2,3,3}, leaving hydrogens (2/3) or halogens (1/3), 30% mirrored-backward, 40% with bond orders / hydrogen "
+        "counts re-typed per value among int / float / numpy.int64 / numpy.float64 from a derived PRNG, 15% with diagnostic "
+        "members called between mappings and its_list.")
     ctx.nontrivial_rule = "distinct (template, substrate, direction, strategy, mode) with >=1 match and >=1 returned ITS"
     build_and_audit(ctx, ["SynKitProofs.Props.C03"], "SynKitProofs/Audit/C03.lean", THEOREMS)
 
@@ -1001,6 +1621,14 @@ def run(ctx):
     syn = [synth_case(ctx.rnd) for _ in range(nsyn)]
     run_cases(ctx, syn, timeout, "synthetic")
     run_explicit_h_unit(ctx, 400 if ctx.quick else 4000)
+    # the template joins two atoms the substrate already joins (after every older stream: their draws stay what they were)
+    run_cases(ctx, prebond_hand_cases(ctx, not ctx.quick), timeout, "prebond-hand")
+    joinable = [r for r in pool if r["n_atoms"] <= (40 if ctx.quick else 60)]
+    n_pb, per_pb = (40, 2) if ctx.quick else (len(joinable), 3)
+    run_cases(ctx, prebond_corpus_cases(ctx, ctx.rnd.sample(joinable, min(n_pb, len(joinable))), per_pb), timeout, "prebond-corpus")
+    n_pc = 80 if ctx.quick else len(pool)
+    run_cases(ctx, prebond_centre_cases(ctx, ctx.rnd.sample(pool, min(n_pc, len(pool))), per_pb), timeout, "prebond-centre")
+    run_cases(ctx, [valent_case(ctx.rnd) for _ in range(300 if ctx.quick else 3000)], timeout, "prebond-valent")
     stage = [v for v in ctx.violations if v["what"].startswith("implementation differs")]
     spec = [v for v in ctx.violations if not v["what"].startswith("implementation differs")
             and not ({"rc_template_unbalanced", "additive_round_clash"} & set(v["classes"]))]
